@@ -1,13 +1,12 @@
 package trzsz
 
-import "context"
+// C01 — end-to-end fidelity of a successful transfer (transfer kernels and the co-simulated data phase).
 
-func verifNondetByte() byte
-func verifNondetBool() bool
-func verifNondetRange(lo, hi int) int
-func verifAssume(bool)
-func verifAssert(bool, string)
-func verifReach(string)
+import (
+	"context"
+	"os"
+)
+
 
 type zzNop1 struct{}
 
@@ -23,7 +22,7 @@ func zzH_C01_writer() {
 	ch := make(chan trzszData, 100)
 	w := newSendDataWriter(t, ctx, ch)
 	var all []byte
-	for k := 0; k < 3; k++ {
+	for k := 0; k < verifBound("WRITES"); k++ {
 		n := verifNondetRange(0, 5)
 		p := make([]byte, n)
 		for i := range p {
@@ -65,4 +64,195 @@ func zzH_C01_writer() {
 		}
 	}
 	verifReach("writer")
+}
+
+
+// ---- the whole data phase: sendFileDataV2 on one side, recvFileDataV2 on the other, connected back to back
+
+type zzPipe1 struct{ peer *trzszTransfer }
+
+func (p *zzPipe1) Write(b []byte) (int, error) {
+	c := make([]byte, len(b))
+	copy(c, b)
+	p.peer.addReceivedData(c, false)
+	return len(b), nil
+}
+
+type zzSrc1 struct {
+	data  []byte
+	pos   int
+	chunk int
+}
+
+func (f *zzSrc1) Read(p []byte) (int, error) {
+	n := f.chunk
+	if n > len(p) {
+		n = len(p)
+	}
+	if n > len(f.data)-f.pos {
+		n = len(f.data) - f.pos
+	}
+	copy(p, f.data[f.pos:f.pos+n])
+	f.pos += n
+	return n, nil
+}
+func (f *zzSrc1) Close() error      { return nil }
+func (f *zzSrc1) getFile() *os.File { return nil }
+func (f *zzSrc1) getSize() int64    { return int64(len(f.data)) }
+
+type zzDst1 struct {
+	data   []byte
+	closed bool
+}
+
+func (w *zzDst1) Write(p []byte) (int, error) { w.data = append(w.data, p...); return len(p), nil }
+func (w *zzDst1) Close() error                { w.closed = true; return nil }
+func (w *zzDst1) getFile() *os.File           { return nil }
+
+// a file of SIZE symbolic bytes goes through the 14 real pipeline stages of both ends (read, md5, encode, frame,
+// send, ack bookkeeping | receive, ack, decode, md5, save): both ends report success, the saved bytes are the source
+// bytes, the digests agree. Buffer size, binary/base64, protocol 2..4 and the source's read granularity vary.
+func zzH_C01_dataPhase() {
+	S := newTransfer(nil, nil, false, nil)
+	R := newTransfer(nil, nil, false, nil)
+	S.writer, R.writer = &zzPipe1{R}, &zzPipe1{S}
+	proto := verifNondetRange(2, 4)
+	binary := verifNondetBool()
+	maxBuf := int64(verifNondetRange(4, 8))
+	for _, t := range []*trzszTransfer{S, R} {
+		t.transferConfig.Protocol = proto
+		t.transferConfig.Timeout = 0
+		t.transferConfig.Binary = binary
+		t.transferConfig.MaxBufSize = maxBuf
+	}
+	S.bufferSize.Store(int64(verifNondetRange(2, 4)))
+	size := verifBound("SIZE")
+	src := &zzSrc1{data: make([]byte, size), chunk: verifNondetRange(1, 3)}
+	for i := range src.data {
+		src.data[i] = verifNondetByte()
+		if !binary {
+			// the streaming base64 coder is an identity stub in the symbolic build: keep the payload inside the
+			// base64 alphabet there (the native replay runs the real coder on the same bytes)
+			verifAssume(src.data[i] >= 'A')
+			verifAssume(src.data[i] <= 'Z')
+		}
+	}
+	dst := &zzDst1{}
+	var sd, rd []byte
+	var serr, rerr error
+	sdone, rdone := false, false
+	go func() { sd, serr = S.sendFileDataV2(src, nil); sdone = true }()
+	go func() { rd, rerr = R.recvFileDataV2(dst, int64(size), nil); rdone = true }()
+	verifQuiesce()
+	for i := 0; i < 3 && !(sdone && rdone); i++ {
+		verifAdvanceTime() // the receiver re-sends its final ack on a 200 ms timer until everything is saved
+		verifQuiesce()
+	}
+	verifAssert(sdone, "sender did not complete over a fault-free connection")
+	verifAssert(rdone, "receiver did not complete over a fault-free connection")
+	verifAssert(serr == nil, "sender failed over a fault-free connection")
+	verifAssert(rerr == nil, "receiver failed over a fault-free connection")
+	verifAssert(dst.closed, "destination not closed")
+	verifAssert(len(dst.data) == size, "saved length differs from the source")
+	for i := 0; i < size && i < len(dst.data); i++ {
+		verifAssert(dst.data[i] == src.data[i], "saved content differs from the source")
+	}
+	verifAssert(len(sd) == 16 && len(rd) == 16, "digest length")
+	for i := 0; i < 16 && i < len(sd) && i < len(rd); i++ {
+		verifAssert(sd[i] == rd[i], "the two ends computed different digests for identical content")
+	}
+	verifReach("transferred")
+}
+
+// the compression decision is taken identically on both ends (or announced): for every size and configuration
+func zzH_C01_compress() {
+	S := newTransfer(nil, nil, false, nil)
+	R := newTransfer(nil, nil, false, nil)
+	S.writer, R.writer = &zzPipe1{R}, &zzPipe1{S}
+	proto := verifNondetRange(1, 4)
+	binary := verifNondetBool()
+	ct := compressType(verifNondetRange(0, 2))
+	for _, t := range []*trzszTransfer{S, R} {
+		t.transferConfig.Protocol = proto
+		t.transferConfig.Timeout = 0
+		t.transferConfig.Binary = binary
+		t.transferConfig.CompressType = ct
+	}
+	size := int64(verifNondetInt())
+	verifAssume(size >= 0)
+	fs, cs := S.isCompressFixed(size)
+	fr, cr := R.isCompressFixed(size)
+	verifAssert(fs == fr, "the two ends disagree on whether the compression is fixed")
+	if fs {
+		verifAssert(cs == cr, "the two ends disagree on the compression")
+		verifReach("fixed")
+		return
+	}
+	// not fixed: the sender announces its choice with a COMP line, the receiver follows it
+	choice := verifNondetBool()
+	S.sendLine("COMP", map[bool]string{true: "true", false: "false"}[choice])
+	got, err := R.recvCompressFlag(size)
+	verifAssert(err == nil, "announced compression flag not understood")
+	verifAssert(got == choice, "receiver decodes with another compression than the sender announced")
+	verifReach("announced")
+}
+
+// ---- negotiation: the client's ACT and the server's CFG through the real sendAction/recvAction/sendConfig/recvConfig
+// of both ends: afterwards both ends hold the same settings, and these are what the two sides' capabilities allow
+
+func zzH_C01_negotiate() {
+	C := newTransfer(nil, nil, false, nil) // client
+	V := newTransfer(nil, nil, false, nil) // server
+	C.writer, V.writer = &zzPipe1{V}, &zzPipe1{C}
+	C.transferConfig.Timeout, V.transferConfig.Timeout = 0, 0
+	// the server version the trigger advertised decides the client's protocol
+	sv := &trzszVersion{uint32(verifNondetRange(0, 2)), uint32(verifNondetRange(0, 2)), uint32(verifNondetRange(0, 5))}
+	remoteWin := verifNondetBool()
+	V.windowsProtocol = remoteWin // a server on Windows reads through the Windows console framing
+	verifAssert(C.sendAction(true, sv, remoteWin) == nil, "sendAction failed")
+	action, err := V.recvAction()
+	verifAssert(err == nil, "recvAction failed")
+	if err != nil {
+		return
+	}
+	old := sv.compare(&trzszVersion{1, 1, 3}) <= 0 && sv.compare(&trzszVersion{1, 1, 0}) >= 0
+	if old {
+		verifAssert(action.Protocol == 2, "protocol offered to a 1.1.0-1.1.3 server is not 2")
+	} else {
+		verifAssert(action.Protocol == kProtocolVersion, "protocol offered is not the client's own")
+	}
+	verifAssert(action.Confirm, "confirm lost")
+	verifAssert(action.SupportBinary == !remoteWin, "binary capability offered although the remote is Windows (or withheld otherwise)")
+	verifAssert(!action.TunnelConnected, "tunnel announced without a connection")
+
+	// the server's side of trz/tsz: honour the (possibly relay-narrowed) action
+	args := &baseArgs{Quiet: verifNondetBool(), Overwrite: verifNondetBool(), Binary: false, Directory: verifNondetBool()}
+	args.Bufsize.Size = int64(verifNondetRange(1024, 1<<30))
+	args.Timeout = verifNondetRange(-1, 100)
+	args.Compress = compressType(verifNondetRange(0, 2))
+	tmuxMode := tmuxModeType(verifNondetRange(0, 2))
+	pane := int32(verifNondetRange(0, 300))
+	verifAssert(V.sendConfig(args, action, nil, tmuxMode, pane) == nil, "sendConfig failed")
+	cfg, err := C.recvConfig()
+	verifAssert(err == nil, "recvConfig failed")
+	if err != nil {
+		return
+	}
+	sc := &V.transferConfig
+	verifAssert(cfg.Protocol == sc.Protocol, "the two ends hold different protocols")
+	verifAssert(cfg.Protocol <= action.Protocol, "negotiated protocol above what the client offered")
+	verifAssert(cfg.Protocol <= kProtocolVersion, "negotiated protocol above what the server understands")
+	verifAssert(cfg.Protocol == action.Protocol || action.Protocol > kProtocolVersion, "protocol lowered although both ends understand it")
+	verifAssert(cfg.Binary == sc.Binary, "the two ends disagree on binary mode")
+	verifAssert(!cfg.Binary, "binary negotiated although the server did not ask for it and there is no tunnel")
+	verifAssert(cfg.Directory == sc.Directory && cfg.Directory == args.Directory, "directory mode")
+	verifAssert(cfg.Overwrite == sc.Overwrite && cfg.Overwrite == args.Overwrite, "overwrite")
+	verifAssert(cfg.Quiet == sc.Quiet && cfg.Quiet == args.Quiet, "quiet")
+	verifAssert(cfg.MaxBufSize == sc.MaxBufSize && cfg.MaxBufSize == args.Bufsize.Size, "max buffer size")
+	verifAssert(cfg.Timeout == sc.Timeout && cfg.Timeout == args.Timeout, "timeout")
+	verifAssert(cfg.CompressType == sc.CompressType && cfg.CompressType == args.Compress, "compress type")
+	verifAssert(cfg.TmuxOutputJunk == (tmuxMode == tmuxNormalMode), "tmux junk flag")
+	verifAssert(cfg.TmuxPaneColumns == pane, "tmux pane width")
+	verifAssert(cfg.Newline == sc.Newline, "the two ends frame lines differently")
+	verifReach("negotiated")
 }
